@@ -34,6 +34,7 @@ type propAbs struct {
 	FA      string `json:"fa"`
 	Parents string `json:"parents"`
 	IMaps   string `json:"imaps"`
+	Busy    bool   `json:"busy"`
 }
 
 type propCase struct {
@@ -118,9 +119,19 @@ func buildProposal(w *World, a propAbs, h, i, s *Party, parentID channel.ID, oth
 	if a.Bals == "ragged" && len(assets) == 1 {
 		assets = append(assets, other)
 	}
+	// the receiver's parent holds I 9 / H 5 (I 4 / H 10 once the pending update of a busy parent is through); in a virtual
+	// channel H stands in for the first end point (index map [1 0])
 	b0, b1 := int64(3), int64(2)
-	if a.Funds == "exceed" {
+	switch a.Funds {
+	case "exceed":
+		b0, b1 = 11, 1
+	case "exceedmapped":
+		b0, b1 = 8, 2
+	case "taken":
 		b0, b1 = 6, 1
+		if a.Kind == "virtual" {
+			b0, b1 = 3, 6
+		}
 	}
 	if a.Bals == "negative" {
 		b0, b1 = -1, 6
@@ -226,8 +237,15 @@ func buildProposal(w *World, a propAbs, h, i, s *Party, parentID channel.ID, oth
 	}
 }
 
+var proposalLeftovers int
+
 // runProposalCase delivers one crafted proposal to a real client and reports whether the handler ran.
 func runProposalCase(t *testing.T, c *propCase, proto bool, idx int) (invoked bool, nchans int, undecodable string) {
+	defer func() {
+		if p := recover(); p != nil { // goroutines left over at the end of the bubble: a leak, not what C08 states
+			proposalLeftovers++
+		}
+	}()
 	synctest.Test(t, func(t *testing.T) {
 		NoWatcher = map[string]bool{}
 		w := NewWorld(t, int64(idx)+1, "H", "I", "S")
@@ -235,12 +253,31 @@ func runProposalCase(t *testing.T, c *propCase, proto bool, idx int) (invoked bo
 		h, i, s := w.P[0], w.P[1], w.P[2]
 		var parentID channel.ID
 		if c.HasParent {
-			_, chH, err := w.OpenLedgerChannel(i, h, 60, 5, 5) // I proposes: only the parent's proposer can propose sub-channels
+			chI, chH, err := w.OpenLedgerChannel(i, h, 60, 9, 5) // I proposes: only the parent's proposer can propose sub-channels
 			if err != nil {
 				undecodable = "setup: " + err.Error()
 				return
 			}
 			parentID = chH.ID()
+			if c.Prop.Busy { // an update by which I pays 5 waits for H's user
+				uctx, ucancel := context.WithCancel(context.Background())
+				defer func() { ucancel(); w.Quiesce() }()
+				go func() {
+					_ = chI.Update(uctx, func(s *channel.State) {
+						s.Balances[0][0] = new(big.Int).Sub(s.Balances[0][0], big.NewInt(5))
+						s.Balances[0][1] = new(big.Int).Add(s.Balances[0][1], big.NewInt(5))
+					})
+				}()
+				w.Quiesce()
+				if k := w.Bus.Find(func(e *wire.Envelope) bool { return w.Bus.Info(e).T == "upd" }); k >= 0 {
+					w.Bus.Deliver(k)
+					w.Quiesce()
+				}
+				if h.NPendingUpdatesFor(parentID) != 1 {
+					undecodable = "setup: the parent update did not reach H's handler"
+					return
+				}
+			}
 		}
 		created := 0
 		h.C.OnNewChannel(func(*client.Channel) { created++ })
@@ -252,6 +289,14 @@ func runProposalCase(t *testing.T, c *propCase, proto bool, idx int) (invoked bo
 			return
 		}
 		w.Quiesce()
+		if u := h.TakeUpdateFor(parentID); u != nil && c.Prop.Busy { // the user now accepts the pending parent update
+			go func() { _ = u.Resp.Accept(context.Background()) }()
+			w.Quiesce()
+			if k := w.Bus.Find(func(e *wire.Envelope) bool { return w.Bus.Info(e).T == "acc" }); k >= 0 {
+				w.Bus.Deliver(k)
+				w.Quiesce()
+			}
+		}
 		if p := h.TakeProposal(); p != nil {
 			invoked = true
 			go func() { _ = p.Resp.Reject(context.Background(), "no") }()
@@ -281,6 +326,7 @@ func TestProposalCases(t *testing.T) {
 	sup := newSupervised()
 	start := drv.EnvInt("VERIF_START", 0)
 	res.Add("cases", len(cases))
+	defer func() { res.Add("leftover_goroutines", proposalLeftovers) }()
 	for n := start; n < 2*len(cases); n++ {
 		c, proto := cases[n/2], n%2 == 1
 		ser := "native"
